@@ -243,6 +243,33 @@ def _stamp_source(func, value, stamp, want, defs):
     return False
 
 
+def forced_identity(ctx):
+    """The forcing routine takes the recorded identity whenever one was
+    recorded (identity 0 included): no condition besides `is not None` and
+    the group reference."""
+    nz = N.Normaliser()
+    app_cls = ctx.index.get_class(K.SCHED, 'Application')
+    force = ctx.index.find_method(app_cls, 'force_set_identity')
+    ctx.require(force is not None, 'Application.force_set_identity')
+    fgraph = ctx.cfg(force)
+    ffacts = N.must_facts(fgraph, nz, edge_ok=C.no_exc)
+    param = force.params()[1]
+    stores = [n for n in fgraph.nodes if any(
+        N.txt(t) == 'self.identity' for t, _v, _k in K.assigns_attr(n))]
+    ctx.require(stores, 'store of self.identity in force_set_identity')
+    for node in stores:
+        extra = [N.show(f) for f in N.canonical(ffacts[node])
+                 if not (f.key[0] == 'is' and not f.key[3] and
+                         f.key[1] == param and f.key[2] == 'None') and
+                 not (f.key[0] == 'truth' and f.key[2] and
+                      f.key[1] == 'self.identity_group_ref')]
+        val = [N.txt(v) for _t, v, _k in K.assigns_attr(node)][0]
+        ctx.ob('C11.4', force, node, not extra and val == param,
+               'the recorded identity is taken whenever one was recorded'
+               if not extra else
+               'the recorded identity is taken only under %s' % extra)
+
+
 def _keys_and_identity(ctx, loader, master, func, graph, facts):
     nz = N.Normaliser()
     pdata = master.methods.get('_placement_data')
@@ -283,27 +310,7 @@ def _keys_and_identity(ctx, loader, master, func, graph, facts):
         ctx.ob('C11.4', func, node, N.txt(call.args[0]) == 'identity',
                'the identity forced is the recorded one',
                construct='forced value')
-    # the forcing routine takes the recorded identity unconditionally
-    app_cls = ctx.index.get_class(K.SCHED, 'Application')
-    force = ctx.index.find_method(app_cls, 'force_set_identity')
-    ctx.require(force is not None, 'Application.force_set_identity')
-    fgraph = ctx.cfg(force)
-    ffacts = N.must_facts(fgraph, nz, edge_ok=C.no_exc)
-    param = force.params()[1]
-    stores = [n for n in fgraph.nodes if any(
-        N.txt(t) == 'self.identity' for t, _v, _k in K.assigns_attr(n))]
-    ctx.require(stores, 'store of self.identity in force_set_identity')
-    for node in stores:
-        extra = [N.show(f) for f in N.canonical(ffacts[node])
-                 if not (f.key[0] == 'is' and not f.key[3] and
-                         f.key[1] == param and f.key[2] == 'None') and
-                 not (f.key[0] == 'truth' and f.key[2] and
-                      f.key[1] == 'self.identity_group_ref')]
-        val = [N.txt(v) for _t, v, _k in K.assigns_attr(node)][0]
-        ctx.ob('C11.4', force, node, not extra and val == param,
-               'the recorded identity is taken whenever one was recorded'
-               if not extra else
-               'the recorded identity is taken only under %s' % extra)
+    forced_identity(ctx)
     # a failed restore deletes the record
     tests = [n for n in graph.nodes if n.kind == 'test' and
              N.txt(n.ast) == 'restored']
